@@ -306,8 +306,11 @@ class Check:
               "known_findings_reproduced": self.known_lines, "broken": [b["what"] for b in self.broken]}
         if not self.cov["samples"]:
             self.cov["samples"] = [{"theorems": self.cov.get("theorems", [])[:5]}]
-        os.makedirs(os.path.join(ROOT, "evidence"), exist_ok=True)
-        with open(os.path.join(ROOT, "evidence", self.prop + ".json"), "w") as f:
+        # runs against another tree (seeded changes, fixed worktrees) must not overwrite the
+        # evidence of the registered checks, which always comes from /repo itself
+        evdir = os.path.join(ROOT, "evidence") if REPO == "/repo" else os.path.join(ROOT, "evidence-other-tree")
+        os.makedirs(evdir, exist_ok=True)
+        with open(os.path.join(evdir, self.prop + ".json"), "w") as f:
             json.dump(ev, f, indent=1, default=str)
         for w in self.known_lines:
             print(f"KNOWN-FINDING: property={self.prop} {w}")
